@@ -365,6 +365,16 @@ class C06(Machine):
                     R.probe("derived_network_perpetrator")
                     for qn in ("degree", "path_lengths", "nsi_degree"):
                         C.call(getattr(val, qn))
+                    # ... and changed: it is the caller's own object now,
+                    # nothing of it may reach back into the original
+
+                    def change(d):
+                        d.node_weights = np.asarray(d.node_weights) * 2.0
+                        for a_ in list(d.graph.es.attributes()):
+                            d.set_link_attribute(
+                                a_, 3.0 * d.link_attribute(a_))
+                        d.set_link_attribute("zz", np.ones((d.N, d.N)))
+                    C.call(change, val)
                     val = None
                 val_s = snap(val)
                 if not rnd:
